@@ -184,6 +184,9 @@ impl Director {
     }
 }
 
+/// set when a future of the async-lock flavour was neither ready nor woken within the wall-clock bound
+pub static ASYNC_STUCK: AtomicBool = AtomicBool::new(false);
+
 pub struct SchedRun {
     /// (chosen index, number of options) per step
     pub choices: Vec<(usize, usize)>,
@@ -310,6 +313,9 @@ pub fn run_schedule(roles: Vec<RoleFn>, prefix: &[usize], t_block: Duration) -> 
         }
     }
     run.excl_violation = d.st.lock().unwrap().excl_violation.clone();
+    if ASYNC_STUCK.load(AO::SeqCst) {
+        run.stuck = true;
+    }
     run
 }
 
@@ -337,12 +343,13 @@ where
         if out.sample.is_empty() {
             out.sample = run.trace.clone();
         }
-        if let Some(v) = &run.excl_violation {
+        if let (Some(v), false) = (&run.excl_violation, run.stuck) {
             if out.violation.is_none() {
                 out.violation = Some(("C04", v.clone(), run.trace.clone(), prefix.clone()));
             }
         }
-        if let Err((prop, what)) = verdict {
+        // a run that got stuck (a wall-clock rule fired) proves nothing: its verdict is discarded
+        if let (Err((prop, what)), false) = (verdict, run.stuck) {
             if out.violation.is_none() {
                 out.violation = Some((prop, what, run.trace.clone(), prefix.clone()));
             }
